@@ -163,7 +163,13 @@ func init() {
 	}
 }
 
+// KMap / KMapI: maps whose key is a NAMED string type (elements handled via reflection / by the typed fast path)
+type KMap map[MyStr]ZeroT
+type KMapI map[MyStr]int
+
 func init() {
+	namedTypes["KMap"], namedUnder["KMap"] = reflect.TypeOf(KMap(nil)), TD{K: "map", E: []TD{{K: "named", ID: "ZeroT"}}}
+	namedTypes["KMapI"], namedUnder["KMapI"] = reflect.TypeOf(KMapI(nil)), TD{K: "map", E: []TD{{K: "int"}}}
 	i64 := TD{K: "int64"}
 	for id, x := range map[string]struct {
 		t reflect.Type
